@@ -178,3 +178,42 @@ def np_(x):
 
 def cache_mask(o):
     return "".join(c for c, a in (("S", "Sigma"), ("s", "ln_det_Sigma"), ("l", "ln_det_Lambda"), ("m", "mu"), ("Z", "lnZ")) if getattr(o, a, None) is not None)
+
+
+def pdf_variants(kind, Sig, mu, which=("fresh", "Sigma+Lambda", "Sigma+Lambda+lndet", "sliced_neg", "updated", "queried")):
+    """The same density reached in different ways -> list of (label, builder).  All builders return a density with
+    exactly the components (mu, Sig):
+      fresh / Sigma+Lambda / Sigma+Lambda+lndet : the three constructor argument combinations;
+      sliced_neg : a larger batch sliced with NEGATIVE indices;
+      updated    : built with other parameters, queried, then every component replaced in place by update();
+      queried    : fresh, after second-moment and mass queries."""
+    R = len(mu)
+    out = []
+    for w in which:
+        if w == "fresh":
+            out.append((w, lambda: mk_pdf(kind, Sig, mu)))
+        elif w in ("Sigma+Lambda", "Sigma+Lambda+lndet"):
+            out.append((w, lambda w=w: mk_pdf(kind, Sig, mu, mode=w)))
+        elif w == "sliced_neg":
+            def b():
+                S2 = np.concatenate([Sig[:1] * 1.5, Sig], axis=0)
+                m2 = np.concatenate([mu[:1] - 2.0, mu], axis=0)
+                return mk_pdf(kind, S2, m2).slice(jnp.array(list(range(-R, 0))))
+            out.append((w, b))
+        elif w == "updated":
+            def b():
+                o = mk_pdf(kind, Sig * 2.0, mu + 1.0)
+                o.integrate("xx'")
+                o.log_integral()
+                o.update(jnp.arange(R), mk_pdf(kind, Sig, mu))
+                return o
+            out.append((w, b))
+        elif w == "queried":
+            def b():
+                o = mk_pdf(kind, Sig, mu)
+                o.integrate("xx'")
+                o.integrate("x")
+                o.log_integral_light()
+                return o
+            out.append((w, b))
+    return out
